@@ -1,4 +1,43 @@
-From ZV Require Import Base.Bytes DBus.Spec.
-Theorem C01_placeholder : padn 5 4 = 3%N.
-Proof. reflexivity. Qed.
-Print Assumptions C01_placeholder.
+(* Properties/C01.v — D-Bus encoding is byte-exact with the specification.
+   [marshal]/[marshal_top] (DBus/Spec.v) is the specification's wire format, written independently of the model
+   [ser]/[ser_top]/[size_top] (DBus/Ser.v) of zvariant::dbus::Serializer.  Statements only. *)
+From ZV Require Import Base.Bytes Base.Res Base.Sig DBus.Val DBus.Spec DBus.Ser DBus.SerProofs.
+Local Open Scope N_scope.
+
+(* the bytes: for every configuration, byte order, start offset and every well-formed value within the
+   nesting limits (whose encoding and descriptor count fit the format's 32-bit fields) *)
+Theorem C01_bytes : forall (c : cfg) (e : endian) (pos : N) (v : dval),
+  wf v = true -> enc_form v = true -> within_limits v = true ->
+  len (marshal_top e pos v) < 2 ^ 32 -> nfds v < 2 ^ 32 ->
+  ser_top c e pos (vsig v) (sval_of v) = Ok (marshal_top e pos v, fds_of v).
+Proof. intros c e pos v H1 H2 H3 H4 H5. apply ser_top_exact. repeat split; assumption. Qed.
+Print Assumptions C01_bytes.
+
+(* the size pass: same length as written, and as many descriptors as are attached *)
+Theorem C01_size : forall (c : cfg) (e : endian) (pos : N) (v : dval),
+  wf v = true -> enc_form v = true -> within_limits v = true ->
+  len (marshal_top e pos v) < 2 ^ 32 -> nfds v < 2 ^ 32 ->
+  size_top c e pos (vsig v) (sval_of v) = Ok (len (marshal_top e pos v), N.of_nat (length (fds_of v))).
+Proof. intros c e pos v H1 H2 H3 H4 H5. apply size_top_exact. repeat split; assumption. Qed.
+Print Assumptions C01_size.
+
+(* the general step: serializing a value in the middle of a message appends exactly its marshalling at the
+   current absolute position and changes nothing else of the serializer state *)
+Theorem C01_step : forall (v : dval) (st : sstate),
+  enc_form v = true -> wf v = true -> s_sig st = vsig v -> s_vsign st = None -> fits (s_dep st) v ->
+  nfd st + nfds v < 2 ^ 32 ->
+  len (marshal (s_e st) ByOccurrence v (abs_pos st) (nfd st)) < 2 ^ 32 ->
+  ser (sval_of v) st = Ok (grow st (marshal (s_e st) ByOccurrence v (abs_pos st) (nfd st)) (fds_of v)).
+Proof. intros v st He. exact (ser_good v He st). Qed.
+Print Assumptions C01_step.
+
+(* the specification's padding is the least number of zero bytes reaching the alignment *)
+Theorem C01_padding : forall pos al : N, al <> 0 -> padn pos al < al /\ (pos + padn pos al) mod al = 0.
+Proof. exact padn_spec. Qed.
+Print Assumptions C01_padding.
+
+(* the signature of a variant is read back by the parser from what the encoder wrote *)
+Theorem C01_variant_signature : forall (gv : bool) (g : sig),
+  single_ok g = true -> SigParse.parse_sig gv (show g) = Some g.
+Proof. intros gv g H. apply SigParseFacts.parse_show. now apply SerFacts.single_printable. Qed.
+Print Assumptions C01_variant_signature.
